@@ -264,6 +264,9 @@ func vfC13HRound(t *testing.T, res *vfh.Result, r int) {
 			report("protocol-cap-exceeded", when, 1024, v.Protos)
 		}
 		for _, a := range hA.Peerstore().Addrs(hB.ID()) {
+			if bare, _ := peer.SplitAddr(a); bare != nil && bare.Equal(ma.StringCast("/ip4/5.5.5.5/tcp/4001")) {
+				report("foreign-suffixed-address-recorded", "A holds for B an address that B's message carried only with the /p2p suffix of the foreign host "+when, nil, a.String())
+			}
 			if _, id := peer.SplitAddr(a); id != "" && id != hB.ID() {
 				report("L2:foreign-suffix-stored", "an address with a foreign /p2p suffix is stored for B", nil, a.String())
 			}
